@@ -6,6 +6,7 @@ from fractions import Fraction
 
 import arithcheck
 import core
+import corecheck
 import gen
 import renderoracle
 from common import run_harness, run_model, qenc, Reader
@@ -114,7 +115,7 @@ def nontrivial(case, impl):
 
 def check_cases(res, ctx, cases, label):
     exe = ctx["exe"]
-    hc = [{"files": [core.to_csv(c["rows"])], "init": gen.init_specs(c), "render": True} for c in cases]
+    hc = [{"files": corecheck.split_files(c["rows"]), "init": gen.init_specs(c), "render": True} for c in cases]
     impl_raw = run_harness(exe, "core", hc)
     enc = [core.to_ints(c, 1) for c in cases]
     mod_raw = run_model([e[0] for e in enc])
@@ -126,7 +127,7 @@ def check_cases(res, ctx, cases, label):
         stats["evaluations"] += 1
         stats["impl-" + i["status"]] += 1
         stats["rows-%d" % min(40, 5 * (len(c["rows"]) // 5))] += 1
-        h = hashlib.sha1(hc[k]["files"][0].encode() + repr(hc[k]["init"]).encode()).hexdigest()
+        h = hashlib.sha1("\n".join(hc[k]["files"]).encode() + repr(hc[k]["init"]).encode()).hexdigest()
         if nontrivial(c, i) and h not in ctx["seen"]:
             ctx["seen"].add(h)
             stats["distinct_nontrivial"] += 1
